@@ -189,15 +189,15 @@ Section ModuloDate.
 
   (** timestamp_nanos_opt: the exact count, absent exactly when it does not fit i64 (the negative
       branch's re-association included) *)
-  Lemma timestamp_nanos_opt_spec a : valid_ndt a -> nonleap a ->
-    dt_timestamp_nanos_opt a = Val (if in_i64 (instant a) then Some (instant a) else None).
+  Lemma nanos_opt_arith S f : SEC_MIN <= S <= SEC_MAX -> 0 <= f < 2 * G -> (f < G \/ S mod 60 = 59) ->
+    (let* '(ts, sn) := (if S <? 0 then let* s' := sub_i64 f 1000000000 in let* t' := add_i64 S 1 in Val (t', s')
+                        else Val (S, f)) in
+     match checked_mul in_i64 ts 1000000000 with
+     | None => Val None
+     | Some m => Val (checked_add in_i64 m sn)
+     end) = Val (if in_i64 (S * G + f) then Some (S * G + f) else None).
   Proof.
-    intros Hv Hl. pose proof (secs_of_range a Hv) as Hr. rewrite instant_secs.
-    unfold dt_timestamp_nanos_opt. rewrite timestamp_spec by assumption. cbv [bind].
-    destruct Hv as [Hd [Hs Hf]]. unfold nonleap in Hl.
-    unfold dt_subsec_nanos, Time.nanosecond. fold (dfrac a).
-    set (S := secs_of a) in *. set (f := dfrac a) in *.
-    destruct (S <? 0) eqn:Eneg.
+    intros Hr Hf Hl. destruct (S <? 0) eqn:Eneg.
     - unfold sub_i64, add_i64.
       rewrite chk_val by (ranges; consts; lia). cbv [bind].
       rewrite chk_val by (ranges; consts; lia). cbv [bind].
@@ -212,6 +212,27 @@ Section ModuloDate.
       + destruct (in_i64 (S * 1000000000 + f)) eqn:E2;
         destruct (in_i64 (S * G + f)) eqn:E3; try reflexivity; ranges; unfold G in *; lia.
       + destruct (in_i64 (S * G + f)) eqn:E3; try reflexivity. ranges; unfold G in *; lia.
+  Qed.
+  Lemma bind_val {X Y} (x : X) (k : X -> R Y) : bind (Val x) k = k x.
+  Proof. reflexivity. Qed.
+  Lemma timestamp_nanos_opt_spec a : valid_ndt a -> nonleap a ->
+    dt_timestamp_nanos_opt a = Val (if in_i64 (instant a) then Some (instant a) else None).
+  Proof.
+    intros Hv Hl. pose proof (secs_of_range a Hv) as Hr.
+    unfold dt_timestamp_nanos_opt. rewrite timestamp_spec by assumption. rewrite bind_val.
+    destruct Hv as [Hd [Hs Hf]]. unfold nonleap in Hl.
+    exact (nanos_opt_arith (secs_of a) (dfrac a) Hr Hf (or_introl Hl)).
+  Qed.
+  (* the same for the leap-second values [from_timestamp] can produce (second 59): with the reading
+     count = timestamp * 10^9 + subsec_nanos used by timestamp_millis/_micros *)
+  Lemma timestamp_nanos_opt_leap59 a : valid_ndt a -> dsecs a mod 60 = 59 ->
+    dt_timestamp_nanos_opt a = Val (if in_i64 (instant a) then Some (instant a) else None).
+  Proof.
+    intros Hv Hl. pose proof (secs_of_range a Hv) as Hr.
+    unfold dt_timestamp_nanos_opt. rewrite timestamp_spec by assumption. rewrite bind_val.
+    destruct Hv as [Hd [Hs Hf]].
+    assert (Hm : secs_of a mod 60 = 59) by (unfold secs_of, unix_secs; lia).
+    exact (nanos_opt_arith (secs_of a) (dfrac a) Hr Hf (or_intror Hm)).
   Qed.
   Lemma timestamp_nanos_spec a : valid_ndt a -> nonleap a ->
     dt_timestamp_nanos a = if in_i64 (instant a) then Val (instant a) else Panic.
@@ -325,14 +346,18 @@ Section ModuloDate.
   Qed.
 
   (* date-time -> count -> date-time *)
+  Lemma instant_arith na sa fa nb sb fb : 0 <= sa < 86400 -> 0 <= sb < 86400 -> 0 <= fa < G -> 0 <= fb < G ->
+    unix_nanos na sa fa = unix_nanos nb sb fb -> na = nb /\ sa = sb /\ fa = fb.
+  Proof. unfold unix_nanos, unix_secs, G. lia. Qed.
   Lemma instant_inj a b : valid_ndt a -> valid_ndt b -> nonleap a -> nonleap b -> instant a = instant b -> a = b.
   Proof.
     intros [Hda [Hsa Hfa]] [Hdb [Hsb Hfb]] Hla Hlb E.
-    unfold nonleap in *. unfold instant, unix_nanos, unix_secs in E.
-    assert (Hdn : date_dn (nd_date a) = date_dn (nd_date b) /\ dsecs a = dsecs b /\ dfrac a = dfrac b)
-      by (unfold G in *; lia).
-    destruct Hdn as [E1 [E2 E3]]. apply date_dn_inj in E1; try assumption.
-    destruct a as [da [sa fa]], b as [db [sb fb]]. unfold dsecs, dfrac in *. cbn in *. subst. reflexivity.
+    unfold nonleap in *.
+    assert (Hfa' : 0 <= dfrac a < G) by lia. assert (Hfb' : 0 <= dfrac b < G) by lia.
+    destruct (instant_arith _ _ _ _ _ _ Hsa Hsb Hfa' Hfb' E) as [E1 [E2 E3]].
+    apply date_dn_inj in E1; try assumption.
+    destruct a as [da [sa fa]], b as [db [sb fb]]. unfold dsecs, dfrac in *.
+    cbn [nd_date nd_time Time.tsecs Time.tfrac] in *. subst. reflexivity.
   Qed.
 
   Lemma back_secs a : valid_ndt a -> (nonleap a \/ dsecs a mod 60 = 59) ->
@@ -351,7 +376,8 @@ Section ModuloDate.
       unfold secs_of, unix_secs in Hsec.
       assert (E : date_dn (nd_date b) = date_dn (nd_date a) /\ dsecs b = dsecs a) by lia.
       destruct E as [E1 E2]. apply date_dn_inj in E1; try assumption.
-      destruct a as [da [sa fa]], b as [db [sb fb]]. unfold dsecs, dfrac in *. cbn in *. subst. reflexivity.
+      destruct a as [da [sa fa]], b as [db [sb fb]]. unfold dsecs, dfrac in *.
+      cbn [nd_date nd_time Time.tsecs Time.tfrac] in *. subst. reflexivity.
     - exfalso. apply Hspec. split; [exact Hrng|]. unfold nonleap in Hl. unfold G in *. lia.
   Qed.
 
@@ -523,6 +549,17 @@ Proof.
   unfold tz_timestamp_millis, tz_timestamp_millis_opt, rmap, unwrap_r.
   destruct (dt_from_timestamp_millis ms) as [[a|]| |]; reflexivity.
 Qed.
+
+(** Why the second-59 condition: a leap-second fraction on another second (a state reachable through
+    with_second / with_nanosecond, never through from_timestamp) just below the i64 window:
+    1677-09-21T00:12:42 with fraction 1_999_999_999 has timestamp * 10^9 + subsec_nanos =
+    -9223372036000000001, inside i64, but the accessor's negative branch overflows and reports None. *)
+Lemma nanos_opt_leap_gap :
+  let a := mk_ndt 13742219 (Time.mk_time 762 1999999999) in
+  Date.from_yo_opt 1677 264 = Val (Some 13742219) /\ dt_timestamp a = Val (-9223372038) /\
+  in_i64 (-9223372038 * G + 1999999999) = true /\ dt_timestamp_nanos_opt a = Val None /\
+  dt_timestamp_micros a = Val (-9223372036000001).
+Proof. vm_compute. repeat split; reflexivity. Qed.
 
 (** the definitions are inhabited (no dependence on the C01 facts): the doc example
     from_timestamp(1431648000, 0) = 2015-05-15T00:00:00 *)
